@@ -527,7 +527,10 @@ def resolve_strategy_inline_recurse(path, base, decisions):
         if not d.conflict:
             decisions.decisions.append(d)
             continue
-        assert d.local_diff and d.remote_diff
+        if not (d.local_diff and d.remote_diff):
+            # E.g. a conflict inside a cell that the other side deleted
+            decisions.decisions.append(d)
+            continue
         laname, lpname = chunk_typename(d.local_diff)
         raname, rpname = chunk_typename(d.remote_diff)
         chunktype = laname + lpname + "/" + raname + rpname
@@ -593,8 +596,8 @@ def resolve_strategy_inline_recurse(path, base, decisions):
 
             elif k == 'id':
                 # A cell id has to be a string for the notebook
-                # to be valid, so keep the local one:
-                cell[k] = lcell[k]
+                # to be valid, so keep the local one (if it has one):
+                cell[k] = lcell[k] if k in lcell else rcell[k]
 
             elif k == 'execution_count':
                 cell[k] = None  # Clear
